@@ -151,7 +151,7 @@ type ValShape struct {
 	Big      bool   // balances up to 2^1016 instead of small ones
 	App      int    // AppNone, AppPayment, AppMock
 	SigMask  uint32 // bit i set: participant i's signature is present
-	Flags    int    // bit 0 ledger channel, bit 1 virtual channel, bit 2 non-zero aux, bit 3 final state
+	Flags    int    // bit 0 ledger channel, bit 1 virtual channel, bit 2 non-zero aux, bit 3 final state, bit 4 assets on two ledgers
 	Text     int    // length in bytes of reasons / opaque signatures
 }
 
@@ -160,6 +160,10 @@ func (s ValShape) Ledger() bool  { return s.Flags&1 != 0 }
 func (s ValShape) Virtual() bool { return s.Flags&2 != 0 }
 func (s ValShape) Aux() bool     { return s.Flags&4 != 0 }
 func (s ValShape) Final() bool   { return s.Flags&8 != 0 }
+
+// TwoLedgers: every second asset lives on the second ledger (cross-ledger
+// allocation); only in processes that registered it.
+func (s ValShape) TwoLedgers() bool { return s.Flags&16 != 0 && twoLedgers }
 
 // Clamp forces a shape into the range the generators accept, so that a
 // shape read from an edited or minimised replay file is always usable.
@@ -177,7 +181,7 @@ func (s ValShape) Clamp() ValShape {
 	s.Assets = cl(s.Assets, 1, 64)
 	s.Locked = cl(s.Locked, 0, 16)
 	s.App = cl(s.App, AppNone, AppBlob)
-	s.Flags &= 15
+	s.Flags &= 31
 	s.Text = cl(s.Text, 0, 40000)
 	return s
 }
@@ -206,6 +210,9 @@ func RandValShape(r *kernel.Rand, long bool) ValShape {
 		s.SigMask = 0xffffffff // fully signed
 	case 1:
 		s.SigMask = 0
+	}
+	if r.Bool(0.25) {
+		s.Flags |= 16
 	}
 	if long {
 		switch r.Intn(4) {
@@ -291,6 +298,11 @@ func (s ValShape) alloc() Shape {
 // up to perunio.MaxBigIntLength-1 bytes.
 func RandAllocation(r *kernel.Rand, s ValShape) channel.Allocation {
 	a := Allocation(r, s.alloc())
+	if s.TwoLedgers() {
+		for i := 1; i < len(a.Assets); i += 2 {
+			a.Assets[i], a.Backends[i] = NewAssetB(i), LedgerB
+		}
+	}
 	if s.Big {
 		big := func() *big.Int { return new(big.Int).SetBytes(r.Bytes(r.Range(1, 127))) }
 		for i := range a.Balances {
